@@ -213,6 +213,48 @@ theorem gen_checkpointGate_eq : ∀ (a b c d : Bool), Gen.Ck.checkpointGate a b 
 
 theorem gen_syncLoopExit_eq : ∀ (a b c d : Bool), Gen.Ck.syncLoopExit a b c d = loopExit a b c := by decide
 
+
+/-! ### (T) the guarded checkpoints and returns of `checkpointIfNeeded`
+
+`Ck.attempts` (the priority order: emergency TRUNCATE with a PASSIVE attempt
+first, then PASSIVE at the MinCheckpointPageN size, then the time-based PASSIVE
+one) was written against this sequence; it is regenerated from db.go on every
+run.  In particular the size-threshold checkpoint is guarded by the size alone:
+it is also the retry for a threshold crossed while the gate was closed. -/
+
+def expectedIfNeededSteps : List (String × String) := [
+  ("return nil", "db.pageSize == 0"),
+  ("checkpointWithExecutor(ctx,CheckpointModePassive,exec)", "db.exceedsTruncateThreshold(origWALSize) && !exec.state.truncatePassiveFailed"),
+  ("return err", "db.exceedsTruncateThreshold(origWALSize) && !exec.state.truncatePassiveFailed && err != nil && !isSQLiteBusyError(err)"),
+  ("return nil", "db.exceedsTruncateThreshold(origWALSize) && !exec.state.truncatePassiveFailed && !(err != nil) && restarted && !db.exceedsTruncateThreshold(exec.state.lastSyncedWALOffset)"),
+  ("checkpointWithExecutor(ctx,CheckpointModeTruncate,exec)", "db.exceedsTruncateThreshold(origWALSize)"),
+  ("return err", "db.exceedsTruncateThreshold(origWALSize)"),
+  ("checkpointWithExecutor(ctx,CheckpointModePassive,exec)", "newWALSize >= calcWALSize(uint32(db.pageSize), uint32(db.MinCheckpointPageN))"),
+  ("return nil", "newWALSize >= calcWALSize(uint32(db.pageSize), uint32(db.MinCheckpointPageN)) && err != nil && isSQLiteBusyError(err)"),
+  ("return err", "newWALSize >= calcWALSize(uint32(db.pageSize), uint32(db.MinCheckpointPageN)) && err != nil"),
+  ("return nil", "newWALSize >= calcWALSize(uint32(db.pageSize), uint32(db.MinCheckpointPageN))"),
+  ("return fmt.Errorf(\"stat database: %w\", err)", "db.CheckpointInterval > 0 && exec.state.syncedSinceCheckpoint && err != nil"),
+  ("checkpointWithExecutor(ctx,CheckpointModePassive,exec)", "db.CheckpointInterval > 0 && exec.state.syncedSinceCheckpoint && time.Since(fi.ModTime()) > db.CheckpointInterval && newWALSize > calcWALSize(uint32(db.pageSize), 1)"),
+  ("return nil", "db.CheckpointInterval > 0 && exec.state.syncedSinceCheckpoint && time.Since(fi.ModTime()) > db.CheckpointInterval && newWALSize > calcWALSize(uint32(db.pageSize), 1) && err != nil && isSQLiteBusyError(err)"),
+  ("return err", "db.CheckpointInterval > 0 && exec.state.syncedSinceCheckpoint && time.Since(fi.ModTime()) > db.CheckpointInterval && newWALSize > calcWALSize(uint32(db.pageSize), 1) && err != nil"),
+  ("return nil", "db.CheckpointInterval > 0 && exec.state.syncedSinceCheckpoint && time.Since(fi.ModTime()) > db.CheckpointInterval && newWALSize > calcWALSize(uint32(db.pageSize), 1)"),
+  ("return nil", "")
+]
+
+theorem gen_ifNeeded_steps_eq : Gen.Ck.ifNeededSteps = expectedIfNeededSteps := by
+  unfold Gen.Ck.ifNeededSteps expectedIfNeededSteps; rfl
+
+/-- The MinCheckpointPageN checkpoint depends on nothing but the WAL size reached. -/
+theorem gen_min_threshold_guard_is_size_only :
+    ("checkpointWithExecutor(ctx,CheckpointModePassive,exec)",
+      "newWALSize >= calcWALSize(uint32(db.pageSize), uint32(db.MinCheckpointPageN))") ∈ Gen.Ck.ifNeededSteps := by
+  rw [gen_ifNeeded_steps_eq]; simp [expectedIfNeededSteps]
+
+/-- The blocking TRUNCATE checkpoint is guarded by the truncate threshold on the size before the sync alone. -/
+theorem gen_truncate_guard :
+    ("checkpointWithExecutor(ctx,CheckpointModeTruncate,exec)", "db.exceedsTruncateThreshold(origWALSize)") ∈ Gen.Ck.ifNeededSteps := by
+  rw [gen_ifNeeded_steps_eq]; simp [expectedIfNeededSteps]
+
 /-! ### Non-vacuity -/
 example : idleIter ⟨4096, 1000, 0, 0⟩ 7 ⟨37, 5, true⟩ = ⟨37, 5, true⟩ := by decide
 example : idleIter ⟨512, 4, 0, 0⟩ 7 ⟨9, 5, true⟩ = ⟨1, 6, false⟩ := by decide
